@@ -98,7 +98,7 @@ def shard_events(ev_path, nshards, workdir):
 
 
 MIS_RE = re.compile(r'^<<"MISMATCH", (-?\d+), (-?\d+), "([^"]*)", "([^"]*)">>')
-UNS_RE = re.compile(r'^<<"UNSPEC", (-?\d+), (-?\d+), "([^"]*)">>')
+UNS_RE = re.compile(r'^<<"(UNSPEC|LEFTEXACT)", (-?\d+), (-?\d+), "([^"]*)">>')
 SUM_RE = re.compile(r'^<<"SUMMARY", "(.*)", "events", (\d+)>>')
 DEF_RE = re.compile(r'^<<"DEF", "(.*)">>$')
 
@@ -123,7 +123,7 @@ def run_tlc_trace(spec, shard_path, nevents, workdir, tag, timeout=3000, want_de
             continue
         m = UNS_RE.match(ln)
         if m:
-            unspec.append({"case": int(m.group(1)), "i": int(m.group(2)), "op": m.group(3)})
+            unspec.append({"kind": m.group(1), "case": int(m.group(2)), "i": int(m.group(3)), "op": m.group(4)})
             continue
         m = SUM_RE.match(ln)
         if m:
